@@ -570,6 +570,20 @@ fn runs(nums: &[u32], cuts: &[u32]) -> Vec<(u32, u32)> {
 }
 
 pub fn write_doc(spec: &DocSpec) -> Written {
+    // "@xref:k" in an override stands for the offset of revision k's cross-reference section, older or
+    // newer than the one being written; it is written as ten digits, so a first pass with zeros
+    // yields the offsets and a second pass writes them without moving anything
+    let forward = spec.revisions.iter().any(|r| r.overrides.iter().any(|(_, v)| matches!(v, Val::Raw(t) if t.starts_with("@xref:"))));
+    if forward {
+        let (_, offs) = write_doc_pass(spec, &[]);
+        write_doc_pass(spec, &offs).0
+    } else {
+        write_doc_pass(spec, &[]).0
+    }
+}
+
+fn write_doc_pass(spec: &DocSpec, section_offsets: &[usize]) -> (Written, Vec<usize>) {
+    let mut xref_offs: Vec<usize> = vec![];
     let mut out: Vec<u8> = vec![];
     out.extend_from_slice(&spec.junk);
     let base = out.len();
@@ -681,6 +695,10 @@ pub fn write_doc(spec: &DocSpec) -> Written {
         let subst = |v: &Val| -> Val {
             match v {
                 Val::Raw(t) if t == "@xref" => Val::Int(xref_off as i64),
+                Val::Raw(t) if t.starts_with("@xref:") => {
+                    let k: usize = t[6..].parse().unwrap_or(0);
+                    Val::Raw(format!("{:010}", section_offsets.get(k).cloned().unwrap_or(0)))
+                }
                 other => other.clone(),
             }
         };
@@ -783,9 +801,10 @@ pub fn write_doc(spec: &DocSpec) -> Written {
         }
         out.extend_from_slice(format!("startxref\n{}\n%%EOF\n", xref_off).as_bytes());
         prev = Some(xref_off);
+        xref_offs.push(xref_off);
         rev_end.push(out.len());
     }
-    Written { bytes: out, rev_end }
+    (Written { bytes: out, rev_end }, xref_offs)
 }
 
 // ---------------------------------------------------------------------------------------------
@@ -1231,7 +1250,8 @@ impl Builder {
         let mut any_compressed = false;
         for (n, body) in self.objs {
             let compress = match (&body, stm_num) {
-                (Body::Plain(_), Some(_)) => n != root && !layout.keep_direct.contains(&n) && rng.chance(3, 4),
+                (Body::Plain(_), Some(_)) if n == root => layout.compress_root,
+                (Body::Plain(_), Some(_)) => !layout.keep_direct.contains(&n) && rng.chance(3, 4),
                 _ => false,
             };
             if compress {
@@ -1281,10 +1301,12 @@ pub struct Layout {
     /// write an encrypted document (standard security handler revision, key bytes); the user password
     /// is empty, /ID is added to the trailer
     pub encrypt: Option<(u8, usize)>,
+    /// store the catalog in the object stream as well (never drawn at random: set by the callers that want it)
+    pub compress_root: bool,
 }
 impl Layout {
     pub fn classic() -> Layout {
-        Layout { xref_stream: false, compress: false, objstm_filter: StmFilter::None, xref_filter: StmFilter::None, trailing_ws: true, junk: vec![], keep_direct: vec![], trailer: vec![], encrypt: None }
+        Layout { xref_stream: false, compress: false, objstm_filter: StmFilter::None, xref_filter: StmFilter::None, trailing_ws: true, junk: vec![], keep_direct: vec![], trailer: vec![], encrypt: None, compress_root: false }
     }
     pub fn random(rng: &mut Rng) -> Layout {
         let filters = [StmFilter::None, StmFilter::FlateStored, StmFilter::AsciiHex];
@@ -1299,6 +1321,7 @@ impl Layout {
             keep_direct: vec![],
             trailer: vec![],
             encrypt: None,
+            compress_root: false,
         }
     }
 }
